@@ -18,5 +18,6 @@ def run(ctx, rep):
     rep.analysed['configs'] = cfgs
     if ctx.tier == 'thorough':
         rt.rule_witnesses(rep, ctx)
+    rt.rt_controls(rep, ctx, ['M-C15a', 'M-C15b'])
     rep.trusted += ['rustc nightly MIR construction', 'engines/mirfacts', 'str::is_char_boundary (std) rejects index > len']
     rep.assumptions += ['LexerInternal::end / end_to_boundary are a trusted (doc(hidden)) interface for generated code; the property speaks of bump']
